@@ -3,6 +3,7 @@
 -/
 import RdestModel.Swarm.Choose
 import RdestModel.Swarm.Manager
+import RdestModel.Props.C12
 set_option linter.unusedSimpArgs false
 namespace Rdest.Props.C13
 open Rdest.Gen Rdest.Swarm
@@ -204,7 +205,30 @@ example :
     chooseImpl (rarestList st peers).reverse [true, true, true, true] = some 2 := by
   exact ⟨List.reverse_perm _, by decide⟩
 
-/-! ### The pick made on the Have path (`Peer::handle_have`) — the property is **refuted** there (recorded finding) -/
+/-! ### Every pick is the chooser's — also the one made when a peer announces a piece (`Have`) -/
+
+/-- **T4 (C13, every path).** Whenever the manager hands a request to a connection — on `Unchoke`, on `Have`, after a
+    stored or a cancelled piece — the piece asked for is the chooser's answer for that peer at that moment (to which T1
+    and T2 apply: eligible and rarest). There is no other way a piece gets assigned. -/
+theorem T4_every_request_is_the_choosers (s s' : MState) (ev : Ev) (c : Nat) (wi : Bool)
+    (h : mstep s ev = .ok s' (.request c wi)) :
+    match ev with
+    | .unchoke _ chosen => chosen = some c
+    | .pieceDone _ chosen => chosen = some c
+    | .pieceCancel _ chosen => chosen = some c
+    | .have _ _ chosen => chosen = some c
+    | _ => False :=
+  Rdest.Props.C12.T4_asked_only_advertised_and_lacking s s' ev c wi h
+
+/-! ### The code as it was: the Have path assigned the announced piece itself (finding, repaired) -/
+
+/-- `Peer::handle_have` as it was: the announced piece `i`, if `Missing`, is assigned without consulting the chooser. -/
+def oldHaveRequests (s : MState) (a i : Nat) : Option Nat :=
+  match findPeer s a with
+  | some p =>
+    if i < p.pieces.length ∧ s.statuses.getD i .have = .missing ∧ p.amInterested = false ∧ p.choked = false ∧
+        p.pieceIndex = none then some i else none
+  | none => none
 
 /-- Run a history on the manager model. -/
 def mrun : MState → List Ev → Option MState
@@ -223,24 +247,26 @@ def haveWitness : List Ev :=
    .add 2 12, .bitfield 2 (only 12 1) (some 1), .add 3 12, .bitfield 3 (only 12 1) (some 1),
    .unchoke 0 (some 0), .unchoke 1 none, .choke 0]
 
-/-- What happens when peer 1 then announces piece 1: the manager's reply, whether pieces 1 and 0 are eligible for peer 1
-    at that moment, whether piece 0 is advertised by fewer peers, and whether the pick passes C13's `admissible`. -/
-def haveVerdict : Option (Reply × Bool × Bool × Bool × Bool) :=
-  (mrun { statuses := List.replicate 12 .missing, peers := [] } haveWitness).bind fun s =>
-    match mstep s (.have 1 1) with
-    | .ok _ r =>
-      let tgt := (((findPeer s 1).map (·.pieces)).getD []).set 1 true
-      let pcs := s.peers.map (fun p => if p.addr = 1 then tgt else p.pieces)
-      some (r, decide (eligible s.statuses pcs tgt 1), decide (eligible s.statuses pcs tgt 0),
-        decide (count pcs 0 < count pcs 1), admissible s.statuses pcs tgt (some 1))
-    | .panic _ => none
+/-- What the old rule did when peer 1 then announced piece 1: the piece requested, whether pieces 1 and 0 are eligible
+    for peer 1 at that moment, whether piece 0 is advertised by fewer peers, and whether the pick passes `admissible`. -/
+def oldHaveVerdict : Option (Option Nat × Bool × Bool × Bool × Bool) :=
+  (mrun { statuses := List.replicate 12 .missing, peers := [] } haveWitness).map fun s =>
+    let tgt := (((findPeer s 1).map (·.pieces)).getD []).set 1 true
+    let pcs := s.peers.map (fun p => if p.addr = 1 then tgt else p.pieces)
+    (oldHaveRequests s 1 1, decide (eligible s.statuses pcs tgt 1), decide (eligible s.statuses pcs tgt 0),
+      decide (count pcs 0 < count pcs 1), admissible s.statuses pcs tgt (some 1))
 
-/-- **C13 refuted for the Have path (the code as it is; finding `C13-have-path-pick-ignores-rarity`).** After the
-    history above peer 1 announces piece 1. `Peer::handle_have` asks it for piece 1 — eligible, but advertised by three
-    peers — although piece 0, which peer 1 also advertises and the client lacks and nobody fetches, is advertised by
-    two: the pick is not the chooser's and not rarest. (T1/T2 above are about `choose_piece_index`, which all other
-    picks go through.) -/
-theorem have_path_pick_not_rarest : haveVerdict = some (.request 1 true, true, true, true, false) := by
+/-- **The old Have path refuted** (finding `C13-have-path-pick-ignores-rarity`, repaired in /repo): after the history
+    above the old rule asked peer 1 for piece 1 — eligible, but advertised by three peers — although piece 0, which peer 1
+    also advertises, the client lacks and nobody fetches, is advertised by two: not an admissible pick. -/
+theorem old_have_path_pick_not_rarest : oldHaveVerdict = some (some 1, true, true, true, false) := by
   decide
+
+/-- The same situation with the repaired rule: the chooser is consulted and its (only admissible) answer is piece 0. -/
+example : (mrun { statuses := List.replicate 12 .missing, peers := [] } haveWitness).map (fun s =>
+    let tgt := (((findPeer s 1).map (·.pieces)).getD []).set 1 true
+    let pcs := s.peers.map (fun p => if p.addr = 1 then tgt else p.pieces)
+    (admissible s.statuses pcs tgt (some 0), match mstep s (.have 1 1 (some 0)) with | .ok _ r => some r | _ => none)) =
+    some (true, some (.request 0 true)) := by decide
 
 end Rdest.Props.C13
